@@ -11,6 +11,7 @@ CONSTANTS
   SeekMax = 3
   Ops = TRUE
   Hints = {1, 2}
+  Faults = {"raise"}
   IterSingleLine = FALSE
   Emit = FALSE
   Modes = {"shared"}
@@ -20,6 +21,7 @@ CONSTANTS
   IterYieldsAll = TRUE
   FdKinds = {"none"}
   TrustFd = FALSE
+  CommitAfterRead = TRUE
 SPECIFICATION Spec
 INVARIANT TypeOK
 INVARIANT IndexExact
